@@ -3,6 +3,10 @@ import MoneroModel.Proofs.GroupInstance
 import MoneroModel.Proofs.EdwardsLawful
 import MoneroModel.Proofs.ScanRecover
 import MoneroModel.Proofs.GroupRefine
+import MoneroModel.Proofs.GroupRefineScan
+import MoneroModel.Proofs.EdwardsPermissive
+import MoneroModel.Props.C07
+import MoneroModel.Drv.C10
 /-! C09 — "Recovered one-time secret key matches the output's one-time public key".
 About the model `Monero.recoverKey` (Model/Crypto.lean: `KeyRecoverer::{new, recover}` with `get_spend_secret_key`) and
 the by-the-book sender `Spec.Sender`. For every additive commutative group and every lawful `ops` (Proofs/Group.lean).
@@ -73,7 +77,10 @@ theorem C09_recover_reduced (L : Lawful ops) (v s : ℕ) (R : P) (n i j : ℕ) :
 `index` and `sub_index` go into `KeyRecoverer::{new, recover}`. The scan is the model of Model/Scan.lean (C07). -/
 
 /-- the hypotheses of `C09_owned_recover` are satisfiable with a NON-EMPTY result: in the one-element lawful group
-(`unitOps`, Proofs/ScanRecover.lean) a one-output transaction is scanned to `Ok` of one owned output -/
+(`unitOps`, Proofs/ScanRecover.lean) a one-output transaction is scanned to `Ok` of one owned output. This witness is DEGENERATE
+(one point, `keccak = fun _ => []`: every conclusion holds trivially there); that the theorem says something on a real instance is
+`C09_sender_tx_recover` below — on every lawful instance, Ed25519 with Keccak-256 included, a sender-built transaction yields a
+reported output and the recovered scalar opens the SENDER's key. -/
 example : Lawful unitOps ∧ (PUnit.unit : PUnit) = 5 • unitOps.base ∧
     ∃ ws, checkOutputsPrefix unitOps (fun _ => none) unitPrefix 1 PUnit.unit 0 1 0 1 none = .ok ws ∧ ws.length = 1 :=
   ⟨unitOps_lawful, rfl, unitScan_ok⟩
@@ -94,8 +101,11 @@ theorem C09_owned_recover (L : Lawful ops) (decP : Bytes → Option P) (p : Pref
   obtain ⟨_, _, _, hA⟩ := reported_addressed L decP p v S a b c d base ws h w hw
   exact owned_recover_of_addressed L v s S hS w hA
 
-/-- the same for `Transaction::check_outputs` and for `check_outputs_with` a checker built by `SubKeyChecker::new` (on the
-prefix and on the transaction): all four entry points run the same pipeline -/
+/-- DEFINITIONAL COROLLARY of `C09_owned_recover` (no new content): in the MODEL, `Transaction::check_outputs` and
+`check_outputs_with` a checker built by `SubKeyChecker::new` for the same `(v, S)` and ranges (on the prefix and on the transaction)
+are defined as the same pipeline (Model/Scan.lean, `checkOutputsTx` / `checkOutputsTxWith`), so the three disjuncts are the hypothesis
+of `C09_owned_recover` up to unfolding. That the four RUST entry points agree is the business of `C07_apis_agree` and of the harness
+(`APIS-DIFFER`), not of this statement; a checker built for another wallet or other ranges is not covered. -/
 theorem C09_owned_recover_all_apis (L : Lawful ops) (decP : Bytes → Option P) (t : Tx) (v s : ℕ) (S : P)
     (hS : S = s • ops.base) (a b c d : ℕ) (ws : List Owned)
     (h : checkOutputsTx ops decP t v S a b c d = .ok ws ∨
@@ -109,35 +119,86 @@ theorem C09_owned_recover_all_apis (L : Lawful ops) (decP : Bytes → Option P) 
   obtain ⟨x, Pi, _, h1, h2, _, _, h5, _, h7⟩ := C09_owned_recover L decP t.pre v s S hS a b c d t.base ws h' w hw
   exact ⟨x, Pi, h1, h2, h5, h7⟩
 
-omit [AddCommGroup P] in
-/-- `KeyRecoverer` is a two-step object (`new` computes `checker.rv` with `KeyGenerator::from_key`, then any number of
-`recover` calls read it): each call, and any sequence of calls on ONE object, returns `recoverKey` of its own arguments —
-the object has no other state. (`Recoverer`, Model/ScanRecover.lean.) -/
-theorem C09_recoverer_object (v s : ℕ) (R : P) :
-    (∀ n i j, (Recoverer.new ops v s R).recover ops n i j = recoverKey ops v s R n i j) ∧
-    (∀ qs : List (ℕ × ℕ × ℕ), (Recoverer.new ops v s R).recoverAll ops qs
-        = qs.map fun q => recoverKey ops v s R q.1 q.2.1 q.2.2) :=
-  ⟨fun n i j => recoverer_recover v s R n i j, fun qs => recoverer_recoverAll v s R qs⟩
+/-! ### `KeyRecoverer` as an object — NOT a theorem
 
-/-- hypotheses of `C09_recover_value_bounded` are satisfiable -/
+The Rust `KeyRecoverer` is built once (`new` computes `checker.rv`) and then asked any number of times. The model has a record
+`Recoverer` for the driver arm `c09_recover_seq`, and `Recoverer.recover = recoverKey` holds by `rfl`
+(`Monero.Scan.recoverer_recover`, Proofs/ScanRecover.lean) — because the record was written with exactly the fields (v, s, rv). A pure
+Lean record cannot express a memo or a reused scratch buffer inside the Rust object, so NO statement of this file is evidence that
+`KeyRecoverer` is stateless; that rests on the differential checks only: `c09_recover_seq` (one object, positions from long varints to
+short ones and back, indices alternating, the first query repeated at the end, compared with the per-call formula on dalek) and the
+purity re-check of the run. -/
+
+/-! ### clause (a) end to end: the sender's transaction, the scan, the recovery -/
+
+/-- **From the sender's bytes to the recovered key.** Hypotheses of `C07_sender_tx_reported` (the sender writes the extra field
+`TxPublicKey(K) :: rest`, `K = txKey r dest + T` with `T` any small-order point, for the wallet's address `dest` at an in-range index
+`(i, j)`, and the output at position `n` with the by-the-book one-time key, tagged or not) and `S = s•G`: an `Ok` scan reports an output
+at position `n`, `OwnedTxOut::recover_key` on it returns a reduced scalar `x`, and `x•G` IS THE KEY THE SENDER BUILT. Non-degenerate on
+every lawful instance (`C09_sender_tx_recover_ed25519`: Ed25519, Keccak-256). -/
+theorem C09_sender_tx_recover (L : Lawful ops) (decP : Bytes → Option P) (p : Prefix) (v s : ℕ) (S : P) (hS : S = s • ops.base)
+    (a b c d : ℕ) (base : Option Base) (ws : List Owned) (h : checkOutputsPrefix ops decP p v S a b c d base = .ok ws)
+    (n : ℕ) (hn : n < p.outs.length) (i j r : ℕ) (T : P) (hT : 8 • T = 0) (hr : InRange a b c d (i, j))
+    (rest : List Extra.SubField)
+    (hw : Extra.WFSeq (validKey ops) (.txPub (ops.enc (Spec.Sender.txKey (specPrims ops) r (Spec.Sender.destAt (specPrims ops) v S i j) + T)) :: rest))
+    (hp : p.extra = ((Extra.SubField.txPub (ops.enc (Spec.Sender.txKey (specPrims ops) r (Spec.Sender.destAt (specPrims ops) v S i j) + T)) :: rest).map Extra.encSub).flatten)
+    (hout : p.outs[n].target = .key (ops.enc (Spec.Sender.sendKey (specPrims ops) r (Spec.Sender.destAt (specPrims ops) v S i j) n)) ∨
+      p.outs[n].target = .tagged (ops.enc (Spec.Sender.sendKey (specPrims ops) r (Spec.Sender.destAt (specPrims ops) v S i j) n))
+        (Spec.Sender.sendTag (specPrims ops) r (Spec.Sender.destAt (specPrims ops) v S i j) n)) :
+    ∃ w ∈ ws, w.index = n ∧ ∃ x, Owned.recoverKey ops w v s = some x ∧ x < ops.l ∧
+      x • ops.base = Spec.Sender.sendKey (specPrims ops) r (Spec.Sender.destAt (specPrims ops) v S i j) n := by
+  obtain ⟨w, hw', hidx, _, _, _⟩ :=
+    C07.C07_sender_tx_reported L decP p v S a b c d base ws h n hn i j r T hT hr rest hw hp hout
+  obtain ⟨x, Pi, _, h1, h2, _, _, _, h6, h7⟩ := C09_owned_recover L decP p v s S hS a b c d base ws h w hw'
+  obtain ⟨_, hwo, _, _⟩ := reported_addressed L decP p v S a b c d base ws h w hw'
+  refine ⟨w, hw', hidx, x, h1, h7, ?_⟩
+  rw [h6]
+  have ht : w.out.target = p.outs[n].target := by rw [hwo]; simp only [hidx]
+  rw [ht] at h2
+  rcases hout with ho | ho <;> rw [ho] at h2 <;> simp only [asOneTimeKey, L.dec_enc] at h2 <;> exact (Option.some.inj h2).symm
+
+/-! ### the hashed byte strings determine their arguments on the real domain -/
+
+/-- hypotheses of `C09_encodings_exact_bounded` are satisfiable -/
 example : (3 : ℕ) < 2 ^ 32 ∧ (70000 : ℕ) < 2 ^ 64 ∧ (5 : ℕ) < 2 ^ 256 := by decide
 
-/-- `C09_recover_value` on the REAL domain (`Index { major, minor : u32 }`, position a `u64`, keys 32-byte scalars): there
-the totalisations of the model are invisible — the 4-byte / 32-byte little-endian strings and the varint that enter the two
-hashes decode back to the very numbers (nothing is truncated), and `Index::is_zero` tests the same numbers that are hashed. -/
-theorem C09_recover_value_bounded (L : Lawful ops) (v s : ℕ) (R : P) (n i j : ℕ)
-    (hi : i < 2 ^ 32) (hj : j < 2 ^ 32) (hn : n < 2 ^ 64) (hv : v < 2 ^ 256) :
-    recoverKey ops v s R n i j
-      = (Spec.Sender.derivationScalar (specPrims ops) (8 • (v • R)) n
-          + (if i = 0 ∧ j = 0 then s else Spec.Sender.subSpendSec (specPrims ops) v s i j)) % ops.l ∧
+/-- On the REAL domain (`Index { major, minor : u32 }`, position a `u64`, view key a 32-byte scalar) the totalisations of the model are
+invisible: the little-endian strings and the varint that enter the two hashes of `recoverKey` decode back to the very numbers, and the
+two hashed messages DETERMINE their arguments — `enc D ‖ varint(n)` determines the position, `"SubAddr\0" ‖ v ‖ i ‖ j` determines
+`(v, i, j)` — and `Index::is_zero` tests the same numbers that are hashed. (Codec facts; the equation for `recoverKey` itself is
+`C09_recover_value`, which needs no bound because model and specification truncate identically. The spend secret `s` enters no byte
+string: it is only added.) -/
+theorem C09_encodings_exact_bounded (D : P) (v v' n n' i j i' j' : ℕ)
+    (hi : i < 2 ^ 32) (hj : j < 2 ^ 32) (hn : n < 2 ^ 64) (hv : v < 2 ^ 256)
+    (hi' : i' < 2 ^ 32) (hj' : j' < 2 ^ 32) (hn' : n' < 2 ^ 64) (hv' : v' < 2 ^ 256) :
     leNat (le32 i) = i ∧ leNat (le32 j) = j ∧ leNat (scalarBytes v) = v ∧
     varint (encVarint n) = some (n, []) ∧
+    (ops.enc D ++ encVarint n = ops.enc D ++ encVarint n' → n = n') ∧
+    (subPreimage v i j = subPreimage v' i' j' → v = v' ∧ i = i' ∧ j = j') ∧
     (idxZero i j = true ↔ le32 i = le32 0 ∧ le32 j = le32 0) := by
   have e4 : (2 : ℕ) ^ 32 = 256 ^ 4 := by decide
   have e32 : (2 : ℕ) ^ 256 = 256 ^ 32 := by decide
-  refine ⟨C09_recover_value L v s R n i j, Ed.leNat_toBytesLE 4 i (e4 ▸ hi), Ed.leNat_toBytesLE 4 j (e4 ▸ hj),
-    Ed.leNat_toBytesLE 32 v (e32 ▸ hv), ?_, ?_⟩
-  · have := complete_varint n hn []; rwa [List.append_nil] at this
+  have hvar : ∀ m, m < 2 ^ 64 → varint (encVarint m) = some (m, []) := by
+    intro m hm; have := complete_varint m hm []; rwa [List.append_nil] at this
+  refine ⟨Ed.leNat_toBytesLE 4 i (e4 ▸ hi), Ed.leNat_toBytesLE 4 j (e4 ▸ hj),
+    Ed.leNat_toBytesLE 32 v (e32 ▸ hv), hvar n hn, ?_, ?_, ?_⟩
+  · intro h
+    have h1 := List.append_cancel_left h
+    have h2 := hvar n hn
+    rw [h1, hvar n' hn'] at h2
+    exact ((Prod.mk.inj (Option.some.inj h2)).1).symm
+  · intro h
+    unfold subPreimage at h
+    rw [List.append_assoc, List.append_assoc, List.append_assoc, List.append_assoc] at h
+    have h1 := List.append_cancel_left h
+    have h2 := List.append_inj h1 (by rw [scalarBytes_length, scalarBytes_length])
+    have h3 := List.append_inj h2.2 (by rw [le32_length, le32_length])
+    have hvv : v = v' := by
+      have a1 := Ed.leNat_toBytesLE 32 v (e32 ▸ hv)
+      have a2 := Ed.leNat_toBytesLE 32 v' (e32 ▸ hv')
+      have := h2.1; unfold scalarBytes at this; rw [toBytesLE_eq_Ed, toBytesLE_eq_Ed] at this
+      rw [← a1, ← a2, this]
+    exact ⟨hvv, le32_injective hi hi' h3.1, le32_injective hj hj' h3.2⟩
   · rw [Lawful.idxZero_iff]
     constructor
     · rintro ⟨rfl, rfl⟩; exact ⟨rfl, rfl⟩
@@ -173,30 +234,70 @@ theorem C09_owned_recover_ed25519 : type_of% (@C09_owned_recover EdPoint _ edOps
   C09_owned_recover edOps_lawful
 theorem C09_owned_recover_all_apis_ed25519 : type_of% (@C09_owned_recover_all_apis EdPoint _ edOps edOps_lawful) :=
   C09_owned_recover_all_apis edOps_lawful
-/-- **the driver's scalars are the theorems' scalars**: on a valid representative `B` of the transaction key and a 32-byte
-view secret, the executable instance `Drv.refOps` (model side of `c09_recover`, `c09_recover_seq`, `c09_scan_tx`,
-`c09_scenario`) computes the very number `recoverKey edOps …` the `_ed25519` theorems speak about; and the formula inlined in
-the scenario driver (`Drv.C07.Scen.showRecover`: `Drv.decodeKey w.txKey`, then `recoverKey` on the owned output's own position
-and index) is the model `Owned.recoverKey` of `OwnedTxOut::recover_key` -/
-theorem C09_driver_refines (v s : ℕ) (hv : v < 2 ^ 260) (B : Ed.Pt) (hB : Valid B) (n i j : ℕ) (w : Owned) :
+theorem C09_sender_tx_recover_ed25519 : type_of% (@C09_sender_tx_recover EdPoint _ edOps edOps_lawful) :=
+  C09_sender_tx_recover edOps_lawful
+
+/-- the compact-ecdh hypothesis of `C09_driver_refines` is satisfiable: no RingCT data, or 8-byte amounts -/
+example : BaseOk none ∧ BaseOk (some ⟨5, 0, [], [.bp (List.replicate 8 0), .std [] []], []⟩) := by
+  refine ⟨trivial, fun e he => ?_⟩
+  simp only [List.mem_cons, List.not_mem_nil, or_false] at he
+  rcases he with rfl | rfl
+  · show (List.replicate 8 (0 : UInt8)).length ≤ 8; decide
+  · trivial
+
+/-- **the driver's scan and the driver's scalars are the theorems' scan and scalars.** For a view secret below 2^260 (every 32-byte
+scalar) the executable instance `Drv.refOps` with the executable permissive decoder (`Drv.C07.decP` = `Drv.C10.decPerm`) computes
+LITERALLY what the lawful instance `edOps` with `decPermissive` computes — the object of the `_ed25519` theorems:
+(1) `recoverKey` on a valid representative of the transaction key (`c09_recover`, `c09_recover_seq`);
+(2) `Owned.recoverKey` (the model of `OwnedTxOut::recover_key`) on every record;
+(3) the WHOLE scan `checkOutputsPrefix` — which outputs are reported, with which matched key, position and index, and the openings — on
+    every prefix, valid spend-key representative, ranges and RingCT base whose compact ecdh amounts have at most 8 bytes (`BaseOk`;
+    exactly 8 in every parsed transaction and in every scenario transaction) — the model side of `c09_scenario`;
+(4) the same for `checkOutputsTx` with the spend key `s•G` computed by the driver (`c09_scan_tx`), `s` below 2^260;
+(5) the text `c09_scan_tx` prints is the text computed from `Owned.recoverKey edOps`.
+So the hypothesis `checkOutputsPrefix edOps … = .ok ws` of `C09_owned_recover_ed25519` is about the very list the driver prints. -/
+theorem C09_driver_refines (v s : ℕ) (hv : v < 2 ^ 260) (B : Ed.Pt) (hB : Valid B) (n i j : ℕ) :
     recoverKey Drv.refOps v s B n i j = recoverKey edOps v s (toPoint B hB) n i j ∧
-    Owned.recoverKey Drv.refOps w v s
-      = (Drv.decodeKey w.txKey).map fun R => recoverKey Drv.refOps v s R w.index w.sub.1 w.sub.2 := by
-  refine ⟨refines_recoverKey refOps_refines_edOps v s hv B hB n i j, ?_⟩
+    (∀ w : Owned, Owned.recoverKey Drv.refOps w v s = Owned.recoverKey edOps w v s) ∧
+    (∀ (p : Prefix) (S : Ed.Pt) (hS : Valid S) (a b c d : ℕ) (base : Option Base), BaseOk base →
+      checkOutputsPrefix Drv.refOps Drv.C07.decP p v S a b c d base
+        = checkOutputsPrefix edOps decPermissive p v (toPoint S hS) a b c d base) ∧
+    (∀ (t : Tx) (a b c d : ℕ), s < 2 ^ 260 → BaseOk t.base →
+      checkOutputsTx Drv.refOps Drv.C10.decPerm t v (Drv.refOps.smul s Drv.refOps.base) a b c d
+        = checkOutputsTx edOps decPermissive t v (s • edOps.base) a b c d) ∧
+    Drv.C10.showScanRecover v s = Drv.C10.showScanRecoverWith (fun w => Owned.recoverKey edOps w v s) := by
+  have R := refOps_refines_edOps
+  have hd : DecRefines Drv.C07.decP decPermissive := fun b => decP_refines b
+  have hrec : ∀ w : Owned, Owned.recoverKey Drv.refOps w v s = Owned.recoverKey edOps w v s :=
+    fun w => refines_ownedRecoverKey R w v s hv
+  refine ⟨refines_recoverKey R v s hv B hB n i j, hrec, ?_, ?_, ?_⟩
+  · intro p S hS a b c d base hb
+    exact refines_checkOutputsPrefix R hd p v hv S hS a b c d base hb
+  · intro t a b c d hs hb
+    obtain ⟨h1, e1⟩ := refines_pubOf R s hs
+    have e2 : pubOf edOps s = s • edOps.base := edOps_lawful.pubOf_eq s
+    have hdec : Drv.C10.decPerm = Drv.C07.decP := rfl
+    unfold checkOutputsTx
+    rw [hdec, ← e2, ← e1]
+    exact refines_checkOutputsPrefix R hd t.pre v hv _ h1 a b c d t.base hb
+  · unfold Drv.C10.showScanRecover
+    simp only [hrec]
+
+/-- the formula inlined in the scenario driver (`Drv.C07.Scen.showRecover`: `Drv.decodeKey w.txKey`, then `recoverKey` on the owned
+output's own position and index) is the model `Owned.recoverKey` of `OwnedTxOut::recover_key` on `Drv.refOps` (hence, by
+`C09_driver_refines` (2), on `edOps`) -/
+theorem C09_scenario_driver_is_model (v s : ℕ) (ws : List Owned) :
+    Drv.C07.Scen.showRecover v s (.ok ws)
+      = " ".intercalate (s!"ok {ws.length}" :: ws.map fun w =>
+          match Owned.recoverKey Drv.refOps w v s with
+          | some x => s!"{w.index}:{Drv.C07.hx (scalarBytes x)}"
+          | none => s!"{w.index}:bad-key") := by
+  unfold Drv.C07.Scen.showRecover
+  dsimp only
+  congr 3
+  funext w
   unfold Owned.recoverKey
   rw [refOps_dec]
   cases Drv.decodeKey w.txKey <;> rfl
-
-/-- on Ed25519 every reduced scalar is a 32-byte number: `v < l` suffices for `C09_recover_value_bounded` -/
-theorem C09_recover_value_bounded_ed25519 (v s : ℕ) (R : EdPoint) (n i j : ℕ)
-    (hi : i < 2 ^ 32) (hj : j < 2 ^ 32) (hn : n < 2 ^ 64) (hv : v < edOps.l) :
-    recoverKey edOps v s R n i j
-      = (Spec.Sender.derivationScalar (specPrims edOps) (8 • (v • R)) n
-          + (if i = 0 ∧ j = 0 then s else Spec.Sender.subSpendSec (specPrims edOps) v s i j)) % edOps.l ∧
-    leNat (le32 i) = i ∧ leNat (le32 j) = j ∧ leNat (scalarBytes v) = v ∧
-    varint (encVarint n) = some (n, []) ∧
-    (idxZero i j = true ↔ le32 i = le32 0 ∧ le32 j = le32 0) :=
-  C09_recover_value_bounded edOps_lawful v s R n i j hi hj hn
-    (Nat.lt_trans hv (by rw [edOps_l]; decide))
 end Ed25519
 end C09
